@@ -192,6 +192,9 @@ impl Voter {
                 {
                     VoteResult::Unanimous
                 } else {
+                    // The vote is no longer outstanding: `Drop` must vote again and a repeated
+                    // rescind must not be mistaken for unanimity.
+                    voted.set(false);
                     VoteResult::UnanimityPending
                 }
             } else {
@@ -208,6 +211,7 @@ impl Voter {
                         )
                         .is_ok()
                     {
+                        voted.set(false);
                         break VoteResult::UnanimityPending;
                     }
                 }
